@@ -2,6 +2,7 @@
 from vlib.tok import f64, s as S, lst
 from checks.storegen import World, PLAIN, NAMES
 ID = 'C12'
+TECHNIQUE = 'Lean 4 proof over a hand-written model + a table translated from the source on every run (guards of the create functions) + differential correspondence (trace validation, concurrent processes and threads) with the built library'
 THEOREMS = ['Nix.Guards.create_guards_are_in_place', 'Nix.Guards.type_checked_with_the_name', 'Nix.Guards.modelled_creates_are_tabulated', 'Nix.St.setLinks_idsKept', 
     'Nix.C12.uuidChars_wellformed', 'Nix.C12.uuidText_wellformed', 'Nix.C12.byte_inj', 'Nix.C12.uuidChars_injective', 'Nix.C12.uuidText_injective', 'Nix.C12.uuidText_eq_iff',
     'Nix.C12.step_inv', 'Nix.C12.ids_distinct_invariant', 'Nix.C12.id_immutable', 'Nix.C12.id_immutable_history',
